@@ -556,7 +556,7 @@ func writeEvidence(prop, tier string, seed int, pc *PropCfg, eng *Engine, result
 			"deciding_unsat": r.Stats.DecideUnsat, "deciding_sat": r.Stats.DecideSat, "deciding_unknown": r.Stats.DecideUnknown,
 			"assertions_folded_true_by_construction": r.Stats.AssertConst, "assertion_sites": r.Stats.Asserts,
 			"reach": r.Stats.Reached, "choices": r.Stats.Choices, "steps": r.Stats.Steps, "max_decision_depth": r.Stats.MaxDepth,
-			"solver": r.Run.Solver, "portfolio": r.Run.Portfolio, "solver_time_s": r.Stats.SolverTime.Seconds(), "solver_queries": r.Stats.SolverQueries, "one_shot_queries": r.Stats.FreshQueries, "float_results_overapproximated": r.Stats.OpaqueInts, "sampled_value_classes": r.Stats.SampledClasses,
+			"solver": r.Run.Solver, "portfolio": r.Run.Portfolio, "solver_time_s": r.Stats.SolverTime.Seconds(), "solver_queries": r.Stats.SolverQueries, "one_shot_queries": r.Stats.FreshQueries, "float_results_overapproximated": r.Stats.OpaqueInts, "sampled_value_classes": r.Stats.SampledClasses, "go_statements_not_executed": r.Stats.GoSkipped,
 			"wall_s": r.Wall.Seconds(), "not_established": hne, "violation_counts": r.VioCount, "stopped": r.Stopped,
 			"known_region_paths": r.Stats.KnownHits, "callee_summaries": r.Run.Summaries, "functions_encoded": len(r.Funcs),
 		})
